@@ -1888,7 +1888,7 @@ func genC15(ctx *hx.Ctx, emit func(hx.Case)) {
 
 	nCold, nWarm := 110, 260
 	if ctx.Thorough() {
-		nCold, nWarm = 1400, 4600
+		nCold, nWarm = 1200, 4200
 	}
 	for i := 0; i < nCold+nWarm; i++ {
 		cold := i%((nCold+nWarm)/nCold) == 0
